@@ -458,18 +458,27 @@ class NestedDictRAMDataStore(datastore.DataStore):
         raise custom_errors.NotFoundError(
             'No such study:', s_resource.name
         ) from e
-      # Store Study-related metadata into the database.
-      vz.metadata_util.merge_study_metadata(
-          study_node.study_proto.study_spec, copy.deepcopy(study_metadata)
-      )
       # Split the trial-related metadata by Trial.
       split_metadata: DefaultDict[str, List[UnitMetadataUpdate]] = (
           collections.defaultdict(list)
       )
       for md in copy.deepcopy(trial_metadata):
         split_metadata[md.trial_id].append(md)
+      # Look up every Trial before changing anything, so that a missing Trial
+      # leaves the stored Study and Trials untouched.
+      trial_protos = {}
+      for trial_id in split_metadata:
+        t_resource = s_resource.trial_resource(trial_id)
+        try:
+          trial_protos[trial_id] = study_node.trial_protos[t_resource.trial_id]
+        except KeyError as e:
+          raise custom_errors.NotFoundError(
+              'No such trial:', t_resource.name
+          ) from e
+      # Store Study-related metadata into the database.
+      vz.metadata_util.merge_study_metadata(
+          study_node.study_proto.study_spec, copy.deepcopy(study_metadata)
+      )
       # Now, we update one Trial at a time:
       for trial_id, md_list in split_metadata.items():
-        t_resource = s_resource.trial_resource(trial_id)
-        trial_proto = study_node.trial_protos[t_resource.trial_id]
-        vz.metadata_util.merge_trial_metadata(trial_proto, md_list)
+        vz.metadata_util.merge_trial_metadata(trial_protos[trial_id], md_list)
